@@ -42,7 +42,8 @@ def make_env(*, extra=True, mode="strict", loop_limit=None, output_limit=None, n
 def classify(exc: BaseException) -> dict:
     from liquid.exceptions import LiquidError
     if isinstance(exc, LiquidError):
-        return {"err": type(exc).__name__, "liquid": True, "mro": [c.__name__ for c in type(exc).__mro__[:-2]]}
+        return {"err": type(exc).__name__, "liquid": True, "mro": [c.__name__ for c in type(exc).__mro__[:-2]],
+                "detail": (str(exc)[:120] + " <- " + repr(exc.__cause__)[:160]) if type(exc).__name__ == "LiquidError" else ""}
     return {"err": type(exc).__name__, "liquid": False, "msg": str(exc)[:200]}
 
 
